@@ -493,12 +493,144 @@ theorem cont_run {fl : Bool} (tmpl : Term) (max : Nat) (prog : List Term) (hprog
           have := altRel_match (fl := true) (d := d) (θ0 := θ0) [] hW1 hgD clauseC_ifthen1 rfl (by rw [hig]; rfl) bv_ifthen1
             (.cons d (fun _ => rfl) (.cons d (fun _ => rfl) (.cons l (fun h => by cases h) .nil)))
           exact this
+      | disj a b hx ha =>
+        -- a disjunction as a goal: the three clauses of `;`/2 — the heads of the two if-then-else
+        -- clauses clash, `P ; Q :- call((P ; Q))` is a wrapper: the reference runs `call((a ; b))`'s body
+        subst hx
+        subst hfl
+        simp only [functorName, argList, Args.toList] at harr
+        rw [builtin_semi] at harr
+        have hig : img σ1 π (.app ";" (.cons a (.cons b .nil))) =
+            .app ";" (.cons (img σ1 π a) (.cons (img σ1 π b) .nil)) := rfl
+        rw [hig, solve_disj_goal _ _ _ _ _ _ _ _ _ _ (disjHead_img σ1 π ha)] at hs
+        obtain ⟨p0, hp0, hcl0⟩ := boot_semi
+        have hlk : lookupProc m.user ";" 2 = some p0 := by
+          rw [lookupProc_stOK hst, lookup_other prog hprog _ _ userPred_semi, hp0]
+        simp only [List.length_cons, List.length_nil] at harr
+        rw [hlk] at harr
+        simp only [Option.some.injEq] at harr
+        have hp : p = ({ id := m.user.nextId, delayed := ([(clauseOf ite1, ite1, none), (clauseOf ite2, ite2, none)] : List Item).map (fun it => Thunk.clause it.1 (argList (.app ";" (.cons a (.cons b .nil)))) K' env1 m.user.nextId) ++ [Thunk.clause (clauseOf disj3) (argList (.app ";" (.cons a (.cons b .nil)))) K' env1 m.user.nextId] } : Pr) := by
+          have : p = (clausesCall p0.clauses [a, b] K' env1 m).1 := by rw [harr]
+          rw [this, hcl0]
+          simp [clausesCall, freshId, argList, Args.toList]
+        have hm1 : m1 = { m with user := { m.user with nextId := m.user.nextId + 1 } } := by
+          have : m1 = (clausesCall p0.clauses [a, b] K' env1 m).2 := by rw [harr]
+          rw [this]; rfl
+        rw [hp, hm1]
+        let θ0 : Subst := fun x => if x = 0 then img σ1 π a else img σ1 π b
+        have hclash : ∀ x y z : Term, ∃ n, Robinson.solve n
+            [(img σ1 π (.app ";" (.cons a (.cons b .nil))),
+              .app ";" (.cons (.app "->" (.cons x (.cons y .nil))) (.cons z .nil)))] [] = .clash :=
+          fun x y z => ⟨2, by rw [hig]; exact clash_ite (disjHead_img σ1 π ha) x y z⟩
+        have hwr := altRel_match (fl := true) (d := d) (θ0 := θ0) [] hW1 hgD clauseC_disj3 rfl (by rw [hig]; rfl) bv_disj3
+          (.cons l (fun h => by cases h) .nil)
+        exact toW3 ⟨.wrap (its := [(clauseOf ite1, ite1, none), (clauseOf ite2, ite2, none)])
+          (Fs := [.goal (SLD.call1 (.app ";" (.cons (img σ1 π a) (.cons (img σ1 π b) .nil)))) l])
+          rfl (Nat.pos_iff_ne_zero.1 hst.2.1) (Or.inr ⟨_, _, rfl, by simp [Args.length]⟩)
+          ⟨N, σ1, π, D, G', hN, hW1, hcg', hgr1, hco', hq1, hgD,
+            .cons (altRel_dead hW1 clauseC_ite1 rfl bv_ite1 (hclash _ _ _))
+              (.cons (altRel_dead hW1 clauseC_ite2 rfl bv_ite2 (hclash _ _ _)) .nil),
+            rfl, hwr, wrapBody_disj3⟩ hs, hst.nextId, Nat.le_refl _⟩
+      | callN x e es hx hl =>
+        -- call/N, 2 ≤ N ≤ 8: the goal is built from the closure and the additional arguments
+        subst hx
+        have hxD : InD D x := fun v hv => hgD v (by simp [Term.hasVar, Args.hasVar, hv])
+        have hexD : ∀ t ∈ e :: es.toList, InD D t := by
+          intro t ht v hv
+          apply hgD v
+          have : (Args.cons e es).hasVar v = true := by
+            rw [← Args.ofList_toList (Args.cons e es), hasVar_ofList_iff]
+            exact ⟨t, by simpa [Args.toList] using ht, hv⟩
+          simp only [Term.hasVar, Args.hasVar, Bool.or_eq_true] at this ⊢
+          exact Or.inr this
+        have hok : callNOK fl env1 x (e :: es.toList) := by
+          have := (hfine hfl).2 (f' + 1 + 1) x e es.toList K' env m
+            (by simpa [functorName, argList, Args.toList] using harr0)
+          rw [← henv1']
+          simpa [functorName, argList, Args.toList, indicator, varContext] using this
+        obtain ⟨g0, hres, hcase⟩ := hok
+        simp only [functorName, argList, Args.toList] at harr
+        have hr : res env1 x = g0 := by simp [res, hres]
+        have hsub : g0.subst σ1 = x.subst σ1 := resolve_sol inner env1 x g0 σ1 hres hW1.mg.mgu.sol
+        have hig : img σ1 π (.app "call" (.cons x (.cons e es))) =
+            .app "call" (.cons (img σ1 π x) (.cons (img σ1 π e) ((es.subst σ1).rename π))) := rfl
+        rw [hig] at hs
+        have hix0 : img σ1 π x = img σ1 π g0 := by simp only [img, hsub]
+        have hes : ((es.subst σ1).rename π).toList = es.toList.map (img σ1 π) := by
+          rw [Args.rename, toList_subst, toList_subst, List.map_map]; rfl
+        have hl' : ((es.subst σ1).rename π).length ≤ 6 := by
+          rw [Args.rename, Args.length_subst, Args.length_subst]; exact hl
+        rcases hcase with ⟨v, rfl⟩ | ⟨hnone, hnv0⟩ | ⟨G, g', hadd, happ, hw, hb⟩
+        · -- an unbound variable: instantiation error on both sides
+          rw [builtin_callN_var _ _ _ _ _ _ _ v hr] at harr
+          obtain ⟨c1, N', hN', hmk⟩ := mkErr_closed instErr (fun _ => rfl) env1 m
+          rw [hmk] at harr
+          simp only [Option.some.injEq, Prod.mk.injEq] at harr
+          obtain ⟨rfl, rfl⟩ := harr
+          have hσv : σ1 v = .var v := hW1.mg.mgu.idUnbound v (resolve_var_unbound inner env1 x v hres)
+          have hix : img σ1 π x = .var (π v) := by
+            simp only [img, ← hsub, Term.subst, hσv]; rfl
+          rw [hix, solve_callN_none _ _ _ _ _ _ _ _ _ _ _ hl' (by simp [SLD.addArgs, SLD.functor])] at hs
+          simp only [SLD.raise, notCallableErr, Option.some.injEq] at hs
+          subst hs
+          exact toW3 ⟨.err (F := instErr) (c2 := .var 0) rfl, hst, hN'⟩
+        · -- a number or a string: type_error(callable, _) on both sides
+          rw [builtin_callN_none _ _ _ _ _ _ _ g0 hr hnone hnv0] at harr
+          obtain ⟨hcl, haddS, hmatch⟩ := addArgsVM_none hnone hnv0
+          obtain ⟨c1, N', hN', hmk⟩ := mkErr_closed (typeErr "callable" g0)
+            (fun z => by simp [typeErr, Term.a2, Term.hasVar, Args.hasVar, hcl z]) env1 m
+          rw [hmk] at harr
+          simp only [Option.some.injEq, Prod.mk.injEq] at harr
+          obtain ⟨rfl, rfl⟩ := harr
+          have hix : img σ1 π x = g0 := by
+            rw [hix0]; simp only [img, closed_subst hcl]; exact closed_subst hcl _
+          rw [hix, solve_callN_none _ _ _ _ _ _ _ _ _ _ _ hl' (haddS _), hmatch] at hs
+          simp only [SLD.raise, Option.some.injEq] at hs
+          subst hs
+          exact toW3 ⟨.err (F := typeErr "callable" g0) (c2 := .var 0) rfl, hst, hN'⟩
+        · -- a callable closure
+          rw [builtin_callN_some _ _ _ _ _ _ _ g0 G hr hadd] at harr
+          simp only [Option.some.injEq] at harr
+          obtain ⟨hnv0, a, y, ys, hG⟩ := addArgsVM_app hadd
+          have hGnv : ∀ v, G ≠ .var v := by rw [hG]; intro v hv; cases hv
+          have hg' : g' = G.subst σ1 := applyAll_eq_subst hW1.mg.mgu inner G g' happ
+          have hg'nv : ∀ v, g' ≠ .var v := by
+            rw [hg', hG]; intro v hv'; simp [Term.subst] at hv'
+          obtain ⟨cs, hrel, hcg0⟩ := callGoal_okM' (fl := fl) G K' env1 m G g' (res_nonvar env1 G hGnv) hGnv
+            (by simp [app, happ]) hb hw
+          rw [hcg0] at harr
+          have hiG : img σ1 π G = g'.rename π := by rw [hg']; rfl
+          have hrnv : ∀ v, g'.rename π ≠ .var v := by
+            rw [hg', hG]; intro v hv'; simp [Term.rename, Term.subst] at hv'
+          rw [hix0, solve_callN _ _ _ _ _ _ _ _ (g'.rename π) _ _ _ (fl := fl) hl'
+            (by rw [hes, ← hiG]; exact addArgs_img σ1 π hadd) (by rw [dbodyS_rename]; exact hb) hrnv] at hs
+          -- the variables of the instantiated goal become relevant
+          have hgv : ∀ v, g'.hasVar v = true → RV σ1 D v := by
+            intro v hv'
+            rw [hg'] at hv'
+            rcases addArgsVM_vars hadd hv' with h1 | ⟨t, ht, h1⟩
+            · rw [hsub] at h1; exact vars_subst_rv hxD h1
+            · exact vars_subst_rv (hexD t ht) h1
+          obtain ⟨hW2, hgD2, its, hits1, hits2, hitsR⟩ := call_items (fl := fl) d hW1 hgv hrel
+          have hp : p = ({ id := m.user.nextId, delayed := its.map (fun it => Thunk.clause it.1 (argList (qHead g')) K' env1 m.user.nextId) } : Pr) := by
+            have : p = (clausesCall cs (argList (qHead g')) K' env1 m).1 := by rw [harr]
+            rw [this, ← hits1]; simp [clausesCall, freshId, List.map_map, Function.comp_def]
+          have hm1 : m1 = { m with user := { m.user with nextId := m.user.nextId + 1 } } := by
+            have : m1 = (clausesCall cs (argList (qHead g')) K' env1 m).2 := by rw [harr]
+            rw [this]; rfl
+          rw [hp, hm1]
+          have hgr2 : GRel mo lv σ1 π (fun v => D v ∨ RV σ1 D v) G' R' :=
+            hgr1.step_id (fun v hv' => Or.inl hv') (fun _ _ => rfl)
+          refine toW3 ⟨.alts (its := its)
+            (g := qHead g') rfl (Nat.pos_iff_ne_zero.1 hst.2.1) (qHead_shape g')
+            ⟨N, σ1, π, _, G', hN, hW2, hcg', hgr2, hco', hq1, hgD2, hitsR⟩
+            (by rw [hits2]; exact hs), hst.nextId, Nat.le_refl _⟩
       | call x hx =>
       -- call/1
       subst hx
       have hxD : InD D x := fun v hv => hgD v (by simp [Term.hasVar, Args.hasVar, hv])
       have hok : callOK fl env1 x := by
-        have := hfine hfl (f' + 1 + 1) x K' env m (by simpa [functorName, argList, Args.toList] using harr0)
+        have := (hfine hfl).1 (f' + 1 + 1) x K' env m (by simpa [functorName, argList, Args.toList] using harr0)
         rw [← henv1']
         simpa [functorName, argList, Args.toList, indicator, varContext] using this
       obtain ⟨g0, hres, hcase⟩ := hok
